@@ -401,7 +401,7 @@ def model_check(rep, wd, tier):
 
 
 def run(rep, wd, tier, seed):
-    rep.assumptions += ['TLC 1.8 evaluates the TLA+ text correctly', 'wrapped file object is io.BytesIO',
+    rep.assumptions += ['TLC 1.8 evaluates the TLA+ text correctly', 'wrapped file objects: in-memory buffers, real files, pipe-like streams, gzip file objects (harness/drv.py)',
                         'read(0) written explicitly and negative sizes are outside the statement (not generated)']
     model_check(rep, wd, tier)
     induction(rep, wd, tier, seed)
